@@ -28,6 +28,7 @@ type Scenario struct {
 
 // ExecResult is what one execution reports back to the explorer.
 type ExecResult struct {
+	Scenario string
 	Devs     []Dev
 	Steps    int
 	Alts     []uint8
@@ -261,6 +262,115 @@ type parentRec struct {
 	base int
 }
 
+type res struct {
+	r   ExecResult
+	err error
+}
+
+// Pool is a set of worker subprocesses (or an in-process runner) shared by explorations.
+type Pool struct {
+	n       int
+	inproc  bool
+	jobs    chan job
+	results chan res
+	wg      sync.WaitGroup
+}
+
+var defaultPool *Pool
+
+// GetPool returns the process-wide pool with n workers (n <= 0: in-process, sequential).
+func GetPool(n int) *Pool {
+	if defaultPool != nil && (defaultPool.n == n || (n <= 0 && defaultPool.inproc)) {
+		return defaultPool
+	}
+	if defaultPool != nil {
+		defaultPool.Close()
+	}
+	p := &Pool{n: n, inproc: n <= 0, jobs: make(chan job, 256), results: make(chan res, 256)}
+	if p.inproc {
+		p.n = 1
+	}
+	for i := 0; i < p.n; i++ {
+		p.wg.Add(1)
+		go p.serve()
+	}
+	defaultPool = p
+	return p
+}
+
+func (p *Pool) Close() {
+	close(p.jobs)
+	p.wg.Wait()
+	if defaultPool == p {
+		defaultPool = nil
+	}
+}
+
+func (p *Pool) serve() {
+	defer p.wg.Done()
+	var w *worker
+	defer func() { w.kill() }()
+	for j := range p.jobs {
+		if p.inproc {
+			p.results <- res{r: runJob(j)}
+			continue
+		}
+		var r ExecResult
+		var err error
+		for attempt := 0; attempt < 2; attempt++ {
+			if w == nil {
+				if w, err = spawnWorker(); err != nil {
+					break
+				}
+			}
+			if err = w.enc.Encode(&j); err == nil {
+				r = ExecResult{}
+				err = w.dec.Decode(&r)
+			}
+			if err == nil {
+				break
+			}
+			w.kill()
+			w = nil
+		}
+		if err != nil {
+			p.results <- res{err: fmt.Errorf("worker failed on %s %v: %v", j.Scenario, j.Devs, err)}
+			continue
+		}
+		if r.Recycle {
+			w.kill()
+			w = nil
+		}
+		r.Scenario = j.Scenario
+		p.results <- res{r: r}
+	}
+}
+
+// RunBatch executes each named scenario once (no deviations) and returns the results in order.
+func (p *Pool) RunBatch(names []string, keepObs bool) ([]ExecResult, error) {
+	out := make([]ExecResult, len(names))
+	idx := map[string][]int{}
+	for i, n := range names {
+		idx[n] = append(idx[n], i)
+	}
+	sent, got := 0, 0
+	for got < len(names) {
+		for sent < len(names) && sent-got < p.n*4 {
+			p.jobs <- job{Scenario: names[sent], KeepObs: keepObs}
+			sent++
+		}
+		rr := <-p.results
+		got++
+		if rr.err != nil {
+			return nil, rr.err
+		}
+		l := idx[rr.r.Scenario]
+		out[l[0]] = rr.r
+		idx[rr.r.Scenario] = l[1:]
+	}
+	return out, nil
+}
+
 // Explore runs the iterative deviation-bounded search.
 func Explore(scn string, o ExploreOpts) *Summary {
 	t0 := time.Now()
@@ -269,59 +379,8 @@ func Explore(scn string, o ExploreOpts) *Summary {
 	obsSet := map[uint64]struct{}{}
 	seenViol := map[string]bool{}
 
-	type res struct {
-		r   ExecResult
-		err error
-	}
-	jobs := make(chan job, 256)
-	results := make(chan res, 256)
-	var wg sync.WaitGroup
-	nw := o.Workers
-	if nw <= 0 {
-		nw = 1
-	}
-	inproc := o.Workers <= 0
-	for i := 0; i < nw; i++ {
-		wg.Add(1)
-		go func() {
-			defer wg.Done()
-			var w *worker
-			defer func() { w.kill() }()
-			for j := range jobs {
-				if inproc {
-					results <- res{r: runJob(j)}
-					continue
-				}
-				var r ExecResult
-				var err error
-				for attempt := 0; attempt < 2; attempt++ {
-					if w == nil {
-						if w, err = spawnWorker(); err != nil {
-							break
-						}
-					}
-					if err = w.enc.Encode(&j); err == nil {
-						r = ExecResult{}
-						err = w.dec.Decode(&r)
-					}
-					if err == nil {
-						break
-					}
-					w.kill()
-					w = nil
-				}
-				if err != nil {
-					results <- res{err: fmt.Errorf("worker failed on %v: %v", j.Devs, err)}
-					continue
-				}
-				if r.Recycle {
-					w.kill()
-					w = nil
-				}
-				results <- res{r: r}
-			}
-		}()
-	}
+	pool := GetPool(o.Workers)
+	jobs, results, nw := pool.jobs, pool.results, pool.n
 
 	level := []parentRec{}
 	stop := func() bool {
@@ -475,8 +534,6 @@ func Explore(scn string, o ExploreOpts) *Summary {
 			sum.BoundCompleted = lvl
 		}
 	}
-	close(jobs)
-	wg.Wait()
 	sum.DistinctEnd = len(endSet)
 	sum.DistinctObs = len(obsSet)
 	sum.Exhaustive = sum.BoundCompleted == o.Bound
